@@ -1134,6 +1134,8 @@ class StridedInterval:
 
     @property
     def n_values(self):
+        if self.stride == 0:
+            return 1
         return (StridedInterval._wrapped_cardinality(self.lower_bound, self.upper_bound, self.bits) // self.stride) + 1
 
     #
